@@ -35,10 +35,11 @@ type ctx struct {
 	tie    bool // write model cases (sqlite)
 	r      *rng.R
 	n      int
+	lite   bool // connected MySQL variants: a sample of the classes (no skip / TableDiff variants, fewer shuffles and sets)
 }
 
 func main() {
-	mode := flag.String("mode", "sqlite", "sqlite|mysql|postgres|postgres-ns")
+	mode := flag.String("mode", "sqlite", "sqlite|mysql|mysql-my57|mysql-my80|mysql-maria|mysql-history|postgres|postgres-ns")
 	tier := flag.String("tier", "quick", "quick|thorough")
 	outDir := flag.String("out", "", "output directory")
 	flag.Parse()
@@ -52,11 +53,24 @@ func main() {
 		c.differ, c.tie = scopedPGDiffer("public"), true
 		*mode = "postgres"
 	}
+	if *mode == "mysql-history" {
+		c.history(*tier == "thorough")
+		c.w.Close()
+		return
+	}
+	if strings.HasPrefix(*mode, "mysql-") {
+		// the differ of a driver the real mysql.Open built over a fake server of the variant
+		c.differ, c.tie, c.lite = openMy(c.p.variant), true, true
+		*mode = "mysql"
+	}
 	switch *mode {
 	case "sqlite":
 		c.differ, c.tie = sqlite.DefaultDiff, true
 	case "mysql":
-		c.differ, c.tie = mysql.DefaultDiff, true
+		if c.differ == nil {
+			c.differ = mysql.DefaultDiff
+		}
+		c.tie = true
 	case "postgres":
 		if c.differ == nil {
 			c.differ = postgres.DefaultDiff
@@ -77,6 +91,9 @@ func main() {
 	c.w.Set("bases", len(bs))
 	total := 0
 	for bi, b := range bs {
+		if c.lite && (bi == 1 || bi == 3 || bi == 6) {
+			continue
+		}
 		cat := catalogue(c.p, b)
 		total += len(cat)
 		c.identity(bi, b, thorough)
@@ -88,6 +105,7 @@ func main() {
 	if !c.p.scoped {
 		c.unnamed()
 	}
+	c.variantCases()
 	c.wild(thorough)
 	c.w.Close()
 }
@@ -386,6 +404,9 @@ func (c *ctx) identity(bi int, b Schema, thorough bool) {
 	if thorough {
 		n = 600
 	}
+	if c.lite {
+		n /= 5
+	}
 	for i := 0; i < n; i++ {
 		c.one(c.id("perm", bi), "perm", "the schema with a shuffled copy", b, c.shuffle(b), false, 0, nil, true)
 	}
@@ -424,6 +445,9 @@ func (c *ctx) single(bi int, b Schema, cat []Edit) {
 		c.w.Count("edit:" + e.Kind)
 		c.one(c.id(class, bi), class, e.Desc, b, to, false, 0, e.Exp, true, e)
 		c.one(c.id(class+"p", bi), class, e.Desc+" (lists shuffled)", c.shuffle(b), c.shuffle(to), false, 0, e.Exp, true, e)
+		if c.lite {
+			continue
+		}
 		if m := tagOf(e.Exp); m != 0 {
 			c.one(c.id("skip", bi), "skip", e.Desc+" (its kind skipped)", b, to, false, m, e.Exp, true, e)
 			c.one(c.id("skip", bi), "skip", e.Desc+" (all other kinds skipped)", b, to, false, (8191&^m)&^4, e.Exp, true, e)
@@ -500,6 +524,9 @@ func (c *ctx) multi(bi int, b Schema, cat []Edit, thorough bool) {
 	if c.p.scoped {
 		n /= 3
 	}
+	if c.lite {
+		n /= 6
+	}
 	var real []int
 	for i := range cat {
 		real = append(real, i)
@@ -550,6 +577,10 @@ func expressible(dialect string, from, to Schema) bool {
 	if dialect == "sqlite" {
 		return true
 	}
+	if !sameTableNames(from, to) {
+		// lower_case_table_names: the model looks tables up by their exact name
+		return false
+	}
 	eq := func(a, b *string) bool { return (a == nil) == (b == nil) && (a == nil || *a == *b) }
 	for _, t := range from.Tables {
 		u := to.table(t.Name)
@@ -571,4 +602,20 @@ func expressible(dialect string, from, to Schema) bool {
 		return false
 	}
 	return !flags(from) && !flags(to)
+}
+
+// sameTableNames: no table of one side has a counterpart on the other whose name differs in
+// case only (MySQL with lower_case_table_names != 0 pairs them; the model does not).
+func sameTableNames(from, to Schema) bool {
+	for _, t := range from.Tables {
+		if to.table(t.Name) != nil {
+			continue
+		}
+		for _, u := range to.Tables {
+			if strings.EqualFold(t.Name, u.Name) {
+				return false
+			}
+		}
+	}
+	return true
 }
